@@ -12,6 +12,7 @@ CfgOf(e) == [cob |-> e.cob, enabled |-> e.enabled, rtr |-> e.rtr, tt |-> e.tt, i
              evt |-> e.evt, sync |-> e.sync, map |-> e.map]
 GStep(st, e, t) ==
     CASE e.e = "cfg" -> Good([st EXCEPT !.cfg = CfgOf(e), !.first = TRUE, !.nw = 0, !.vdone = FALSE])
+      [] e.e = "devreset" -> Good([st EXCEPT !.dev = DevOf(t.dev0), !.first = TRUE, !.nw = 0, !.vdone = FALSE])
       [] e.e = "nomap" -> Bad(st, "the node has no map for a PDO number (1..512) its dictionary describes")
       [] e.e = "w" ->
            LET r == DevWrite(st.dev, e.k, e.sub, e.val) IN
